@@ -205,22 +205,23 @@ FireTimersAt(S, t) ==
       S2 == IF S1.conn THEN kill(S1, i1) ELSE S1
   IN IF S2.closing = t THEN DisconnectFx(S2) ELSE S2
 
-FireSchedAt(S, t) ==
+\* replies scheduled for the same instant arrive in either order (ord = "lo" | "hi")
+FireSchedAt(S, t, ord) ==
   LET S0 == [S EXCEPT !.now = t]
-      i  == CHOOSE j \in DOMAIN S0.sched : S0.sched[j].at = t /\ \A k \in DOMAIN S0.sched : S0.sched[k].at = t => j <= k
+      i  == CHOOSE j \in DOMAIN S0.sched : S0.sched[j].at = t /\ \A k \in DOMAIN S0.sched : S0.sched[k].at = t => (IF ord = "lo" THEN j <= k ELSE j >= k)
       r  == S0.sched[i]
       S1 == [S0 EXCEPT !.sched = SelectSeq(@, LAMBDA e : e # r)]
   IN ReplyFx(S1, r.id, r.mk, r.a)
 
-RECURSIVE CTimeFx(_, _, _)
-CTimeFx(S, upto, tie) ==
+RECURSIVE CTimeFx(_, _, _, _)
+CTimeFx(S, upto, tie, ord) ==
   LET tt == NextTimer(S, upto)
       ts == NextSched(S, upto)
   IN IF tt > upto /\ ts > upto THEN [S EXCEPT !.now = upto]
-     ELSE IF ts < tt \/ (ts = tt /\ tie = "reply") THEN CTimeFx(FireSchedAt(S, ts), upto, tie)
-     ELSE CTimeFx(FireTimersAt(S, tt), upto, tie)
+     ELSE IF ts < tt \/ (ts = tt /\ tie = "reply") THEN CTimeFx(FireSchedAt(S, ts, ord), upto, tie, ord)
+     ELSE CTimeFx(FireTimersAt(S, tt), upto, tie, ord)
 
-CAdvanceFx(S, ms, tie) == CTimeFx(S, S.now + ms, tie)
+CAdvanceFx(S, ms, tie, ord) == CTimeFx(S, S.now + ms, tie, ord)
 
 ScheduleFx(S, id, mk, a, ms) == [S EXCEPT !.sched = Append(@, [at |-> S.now + ms, id |-> id, mk |-> mk, a |-> a])]
 
